@@ -61,7 +61,7 @@ def main(ctx, replay=None):
     if ctx.tier == "quick":
         sel = [c for c in calls if c["nv"] in (4, 7, 12) or c["order"] == c["nv"] - 1]
     else:
-        sel = calls
+        sel = calls * 4                  # four different tables/shapes per call
     for ci, c in enumerate(sel):
         method, order, nv = c["method"], c["order"], c["nv"]
         nq, np_ = SHAPES[ci % len(SHAPES)]
@@ -77,7 +77,7 @@ def main(ctx, replay=None):
         gamma_zero = bool(rng.random() < 0.5)
         if gamma_zero:
             freqs[:, 0, :3] = 0.0        # as in real files; otherwise arbitrary positive numbers: the output must be zero either way
-        case = {"method": method, "order": order, "nv": nv, "table": "power_law", "gamma_acoustic_zero": gamma_zero, "nq": nq, "np": np_}
+        case = {"method": method, "order": order, "nv": nv, "table": "power_law", "gamma_acoustic_zero": gamma_zero, "nq": nq, "np": np_, "pass": ci // max(1, len(calls))}
         ctx.count(case)
         try:
             w, gam, kap = call(method, order, volumes, freqs, v_array)
